@@ -100,13 +100,14 @@ class JobOut:
             self.d["samples"].append(s)
 
 
-def discharge(check_id, job, pr, out, replay_kind, describe=None, timeout_ms=20000, ext_timeout_s=120,
+def discharge(check_id, job, pr, out, replay_kind, describe=None, timeout_ms=4000, ext_timeout_s=180,
               max_models=6, cex_inputs=None, names_filter=None):
     """Discharge all obligations of one path.  Counterexamples are replayed on the real code."""
     cons = pr.constraints()
     light = pr.constraints(heavy=False) if pr.heavy else None
     out.d["paths"] += 1
     todo = [(n, g, m, False) for (n, g, m) in pr.obligations]
+    done_ok = set()
     while todo:
         name, goal, meta, is_fallback = todo.pop(0)
         if not is_fallback:
@@ -115,10 +116,25 @@ def discharge(check_id, job, pr, out, replay_kind, describe=None, timeout_ms=200
         blocked = []
         verdict = None
         tries = 0
+        acons, agoal = None, None
+        if meta.get("abstract") and all(r in done_ok for r in meta.get("requires", [])):
+            # sound over-approximation: chosen sub-terms become fresh reals constrained only by lemmas that
+            # earlier obligations of this path have established; unsat of the abstraction implies unsat of the original
+            subs = [(t, z3.Real("abs!%s" % nm)) for (t, nm) in meta["abstract"]]
+            acons = [z3.substitute(c, *subs) for c in (light if light is not None else cons)]
+            acons += [z3.substitute(l, *subs) for l in meta.get("lemmas", [])]
+            agoal = z3.substitute(goal, *subs)
         while True:
             t0 = time.time()
             v = None
-            if light is not None and tries == 0:
+            if acons is not None and tries == 0:
+                v, model, info = solve.decide(acons, z3.Not(agoal), {}, timeout_ms=timeout_ms, ext_timeout_s=ext_timeout_s)
+                out.d["queries"] += 1
+                if v != "unsat":
+                    v = None
+                else:
+                    info["solver"] = (info.get("winner") or info["solver"]) + " [abstraction + lemmas]"
+            if v is None and light is not None and tries == 0:
                 # sound shortcut: fewer assumptions (no enclosure tables); unsat here implies unsat with them
                 v, model, info = solve.decide(light, z3.Not(goal), pr.inputs, timeout_ms=min(timeout_ms, 3000),
                                               use_external=False)
@@ -137,6 +153,7 @@ def discharge(check_id, job, pr, out, replay_kind, describe=None, timeout_ms=200
             if v == "unsat":
                 if tries == 0:
                     out.d["discharged"] += 1
+                    done_ok.add(name)
                     out.sample({"obligation": name, "path": pr.index, "decisions": len(pr.decisions),
                                 "verdict": "unsat", "solver": info.get("winner") or info["solver"],
                                 "time_s": info["time_s"], "job": job})
@@ -264,6 +281,9 @@ def main(check_id, modname, jobs, tier, seed, meta, finding_key=None):
         with ctx.Pool(min(nproc, len(jobs))) as pool:
             for r in pool.imap_unordered(_worker, args, chunksize=1):
                 results.append(r)
+                if os.environ.get("VERIF_VERBOSE"):
+                    print("job done %.1fs %s paths=%s obl=%s dis=%s %s" % (r.get("wall_s", 0), json.dumps(r.get("job")), r.get("paths"),
+                          r.get("obligations"), r.get("discharged"), r.get("error", "")[:300]), file=sys.stderr)
                 fresh = [v for v in r.get("violations", [])
                          if not (v.get("key") and known_match(known0, check_id, v["key"]))]
                 if fresh and os.environ.get("VERIF_ALL_VIOLATIONS") != "1":
